@@ -1,7 +1,7 @@
 #!/bin/sh
 # seedtest.sh <ID> [tier] [NAME]: copy the seed from its scratch worktree into /verif/seeded/<NAME>/ (if present),
 # apply its patch to a scratch worktree of /repo (never to /repo itself), run the check against that worktree
-# (VERIF_REPO), and restore the committed evidence file afterwards.
+# (VERIF_REPO), and put the evidence file back as it was before.
 ID="$1"; TIER="${2:-quick}"; NAME="${3:-$ID}"
 SRC=/tmp/seedwt/$NAME/seed_out
 DST=/verif/seeded/$NAME
@@ -11,7 +11,10 @@ mkdir -p "$DST"
 cd /repo || exit 2
 git worktree add -q --detach "$WT" HEAD || exit 2
 ( cd "$WT" && git apply "$DST/patch.diff" ) || { echo "patch does not apply"; git worktree remove --force "$WT"; exit 2; }
+SAVED=$(mktemp)
+cp "/verif/evidence/$ID.json" "$SAVED" 2>/dev/null
 echo "== check $ID ($TIER) with seeded patch $NAME"
 VERIF_REPO="$WT" /verif/verif check "$ID" --tier "$TIER" 2>&1 | grep -v conda | grep -E "^(VIOLATION|OK|INCONCLUSIVE|KNOWN)|harness=|^  [a-z-]+:" | cut -c1-400 | head -12
 git worktree remove --force "$WT"
-cd /verif && git checkout -- "evidence/$ID.json" 2>/dev/null
+[ -s "$SAVED" ] && cp "$SAVED" "/verif/evidence/$ID.json"
+rm -f "$SAVED"
